@@ -269,7 +269,7 @@ prop("C20", ["proto_glue", "plain_get_seq", "plain_touch_seq", "stack_get_w1r0_n
      assumptions=COMMON_ASSUME)
 
 # development aggregates (not properties): run whole harness groups
-for grp in ("raw_ops", "plain_ops", "cache_dir_ops", "sharded_ops", "stack_ops", "second_chance"):
+for grp in ("raw_ops", "plain_ops", "cache_dir_ops", "sharded_ops", "stack_ops", "second_chance", "readonly_ops"):
     PROPS["G_" + grp] = dict(units=[Use(u, ("quick", "thorough")) for u in UNITS.values() if u.group == grp])
 PROPS["G_smt"] = dict(units=[Use(u, ("quick", "thorough")) for u in UNITS.values() if u.kind == "smt"])
 
